@@ -21,6 +21,8 @@ inductive Err where
   | cb (n : Nat)           -- a user callback failed
   | empty                  -- stream.ErrEmpty
   | moreThanOne            -- stream.ErrMoreThanOne
+  | bogus                  -- an answer only a *changed* method gives: `return zero, nil` where the end or an
+                           -- error is due, an error operand that is none of nil / End / err / ErrEmpty / ErrMoreThanOne
   deriving Repr, DecidableEq
 
 /-- A failed `Next` that "costs nothing": expired context or transient source failure. -/
@@ -41,6 +43,45 @@ structure SM (σ : Type u) (α : Type v) where
   close : σ → σ
 
 variable {σ : Type u} {τ : Type w} {α : Type v} {β : Type v}
+
+/-! ## Go `error` values, as the methods test and return them
+
+The error guards (`err == End`, `err != nil`) and the error operand of every `return` of the methods
+and reducers are regenerated from `stream.go` as functions of an *error code*: `nil` = 0, `End` = 1,
+the error held in `err` = 2 (so `return zero, err` is the identity on the code), `ErrEmpty` = 3,
+`ErrMoreThanOne` = 4. A machine hands the code of what its source answered to the regenerated guards
+and turns the code of the returned operand back into an answer with `ret`: `return item, End` instead of
+`return item, err` therefore changes what the machine answers. -/
+
+/-- code of the `err` a pull (`inner.Next(ctx)`, or a callback) produced -/
+def SStep.code : SStep α → Int
+  | .item _ => 0
+  | .skip => 0
+  | .end_ => 1
+  | .err _ => 2
+
+/-- the error a failed pull holds in `err` -/
+def SStep.held : SStep α → Err
+  | .err e => e
+  | _ => .bogus
+
+/-- the answer of `return v, E` where the error operand `E` evaluates to code `k`: `ok` is the answer
+when `E` is `nil` (the value operand), `held` the error in `err`. -/
+def ret (k : Int) (ok : SStep α) (held : Err) : SStep α :=
+  if k = 0 then ok
+  else if k = 1 then .end_
+  else if k = 2 then .err held
+  else if k = 3 then .err .empty
+  else if k = 4 then .err .moreThanOne
+  else .err .bogus
+
+/-- `return zero, E`: there is no item to deliver, so a `nil` operand is an answer the code must never give -/
+def retE (k : Int) (held : Err) : SStep α := ret k (.err .bogus) held
+
+/-- code of a callback's `err` -/
+def cbCode {ρ : Type w} : Except Err ρ → Int
+  | .ok _ => 0
+  | .error _ => 2
 
 /-! ## Scripted source with ghost logs -/
 
@@ -76,20 +117,46 @@ def srcClose (s : Src α) : Src α := { s with closes := s.closes + 1 }
 
 def src : SM (Src α) α := ⟨srcStep, srcClose⟩
 
-/-- `stream.Empty()`. -/
-def empty : SM Unit α := ⟨fun u _ => (.end_, u), id⟩
+/-- `stream.Empty()`: `return zero, End`. -/
+def empty : SM Unit α := ⟨fun u _ => (retE (stEmptyRet 0) .bogus, u), id⟩
 
-/-- `stream.Error(err)`. -/
-def error (e : Err) : SM Unit α := ⟨fun u _ => (.err e, u), id⟩
+/-- `stream.Error(err)`: `return zero, s.err`. -/
+def error (e : Err) : SM Unit α := ⟨fun u _ => (retE (stErrorRet 2) e, u), id⟩
 
-/-- `stream.FromIterator(iter)`: checks the context, then pulls; `Close` does nothing. -/
+/-- `stream.FromIterator(iter)`: checks the context (`ctx.Err() != nil`), then pulls; `Close` does nothing. -/
 def fromIterator (m : Iter.IM σ α) : SM σ α :=
   ⟨fun s c =>
-    if !c then (.err .ctx, s)
+    let ce : Int := if c then 0 else 2   -- `ctx.Err()`: nil for a live context, else the context's error
+    if stFromIterCtxGuard ce then (retE (stFromIterCtxRet ce) .ctx, s)
     else match m.step s with
-      | (.item a, s') => (.item a, s')
       | (.skip, s') => (.skip, s')
-      | (.done, s') => (.end_, s'),
+      | (.item a, s') =>
+        if stFromIterEndGuard true then (retE (stFromIterEndRet 0) .bogus, s') else (ret (stFromIterItemRet 0) (.item a) .bogus, s')
+      | (.done, s') =>
+        if stFromIterEndGuard false then (retE (stFromIterEndRet 0) .bogus, s') else (retE (stFromIterItemRet 0) .bogus, s'),
+   id⟩
+
+/-- `stream.Chan(c)` as a caller's-goroutine machine: `buf` = what the channel holds, `closed` = it was
+closed. The `select` has a data arm and a context arm (`stChanArms`); with an expired context the
+model takes the context arm (Go may take either when both are ready: the harness only uses live
+contexts on `Chan`). A receive from an empty open channel blocks: `skip` for ever. `Close` does nothing.
+The concurrent behaviour (any capacity, sends and close in between) is `Props/C10Chan`. -/
+structure ChanSt (α : Type v) where
+  buf : List α
+  closed : Bool := true
+
+def chan : SM (ChanSt α) α :=
+  ⟨fun st c =>
+    if !c && stChanArms.contains "ctx.Done()" then (retE (stChanCtxRet 2) .ctx, st)
+    else if !stChanArms.contains "s.c" then (.skip, st)
+    else match st.buf with
+      | a :: r =>
+        if stChanEndGuard true then (retE (stChanEndRet 0) .bogus, { st with buf := r })
+        else (ret (stChanItemRet 0) (.item a) .bogus, { st with buf := r })
+      | [] =>
+        if st.closed then
+          (if stChanEndGuard false then (retE (stChanEndRet 0) .bogus, st) else (retE (stChanItemRet 0) .bogus, st))
+        else (.skip, st),
    id⟩
 
 /-! ## Peekable -/
@@ -101,20 +168,30 @@ structure PeekSt (σ : Type u) (α : Type v) where
 def peekNext (m : SM σ α) (p : PeekSt σ α) (c : Bool) : SStep α × PeekSt σ α :=
   if stPeekNextHas p.curr.isSome then
     match p.curr with
-    | some a => (.item a, { p with curr := if stPeekNextClearsHas then none else some a })
+    | some a => (ret (stPeekNextItemRet 0) (.item a) .bogus, { p with curr := if stPeekNextClearsHas then none else some a })
     | none => (.skip, p)
   else
     let (r, s') := m.step p.inner c
     (r, { p with inner := s' })
 
+/-- what `Peek` does with the answer `r` of its pull: `err == End` → `has = false; return zero, End`;
+`err != nil` → `return zero, err`; else `has = true; return curr, nil` -/
+def peekOn (s' : σ) (r : SStep α) : SStep α × PeekSt σ α :=
+  let k := r.code
+  if stPeekEndGuard k then (retE (stPeekEndRet k) r.held, { inner := s', curr := none })
+  else if stPeekErrGuard k then (retE (stPeekErrRet k) r.held, { inner := s', curr := none })
+  else match r with
+    | .item a => (ret (stPeekItemRet k) (.item a) .bogus, { inner := s', curr := if stPeekSetsHas then some a else none })
+    | _ => (.err .bogus, { inner := s', curr := none })
+
 def peekPeek (m : SM σ α) (p : PeekSt σ α) (c : Bool) : SStep α × PeekSt σ α :=
   if stPeekPulls p.curr.isSome then
     match m.step p.inner c with
-    | (.item a, s') => (.item a, { inner := s', curr := if stPeekSetsHas then some a else none })
-    | (r, s') => (r, { inner := s', curr := none })
+    | (.skip, s') => (.skip, { inner := s', curr := none })
+    | (r, s') => peekOn s' r
   else
     match p.curr with
-    | some a => (.item a, p)
+    | some a => (ret (stPeekItemRet 0) (.item a) .bogus, p)
     | none => (.end_, p)
 
 def peekClose (m : SM σ α) (p : PeekSt σ α) : PeekSt σ α :=
@@ -128,18 +205,26 @@ structure ChunkSt (σ : Type u) (α : Type v) where
   inner : σ
   pend : List α := []
 
+/-- `chunkStream.Next` after its pull answered `r`: `err == End` → `break` (flush what is pending, or
+`return nil, End`); `err != nil` → `return nil, err`; else append, and return the chunk when it is full -/
+def chunkOn (size : Int) (st : ChunkSt σ α) (s' : σ) (r : SStep α) : SStep (List α) × ChunkSt σ α :=
+  let k := r.code
+  if stChunkEndGuard k then
+    if stChunkFlush (st.pend.length : Int) then (ret (stChunkFlushRet k) (.item st.pend) .bogus, { inner := s', pend := [] })
+    else (retE (stChunkDoneRet k) .bogus, { st with inner := s' })
+  else if stChunkErrGuard k then (retE (stChunkErrRet k) r.held, { st with inner := s' })
+  else match r with
+    | .item a =>
+      let p := st.pend ++ [a]
+      if stChunkFull (p.length : Int) size then (ret (stChunkFullRet k) (.item p) .bogus, { inner := s', pend := [] })
+      else (.skip, { inner := s', pend := p })
+    | _ => (.err .bogus, { st with inner := s' })
+
 def chunk (size : Int) (m : SM σ α) : SM (ChunkSt σ α) (List α) :=
   ⟨fun st c =>
     match m.step st.inner c with
-    | (.item a, s') =>
-      let p := st.pend ++ [a]
-      if stChunkFull (p.length : Int) size then (.item p, { inner := s', pend := [] })
-      else (.skip, { inner := s', pend := p })
     | (.skip, s') => (.skip, { st with inner := s' })
-    | (.end_, s') =>
-      if stChunkFlush (st.pend.length : Int) then (.item st.pend, { inner := s', pend := [] })
-      else (.end_, { st with inner := s' })
-    | (.err e, s') => (.err e, { st with inner := s' }),
+    | (r, s') => chunkOn size st s' r,
    fun st => if stChunkCloseForwards then { st with inner := m.close st.inner } else st⟩
 
 structure CompactSt (σ : Type u) (α : Type v) where
@@ -147,65 +232,106 @@ structure CompactSt (σ : Type u) (α : Type v) where
   first : Bool := true
   prev : Option α := none
 
+/-- `compactStream.Next` after its pull answered `r`: `err != nil` → `return item, err` (the end included) -/
+def compactOn (eq : α → α → Bool) (st : CompactSt σ α) (s' : σ) (r : SStep α) : SStep α × CompactSt σ α :=
+  let k := r.code
+  if stCompactErrGuard k then (retE (stCompactErrRet k) r.held, { st with inner := s' })
+  else match r with
+    | .item a =>
+      let setPrev : Option α := if stCompactSetsPrev ≥ 2 then some a else st.prev
+      if st.first then
+        (ret (stCompactFirstRet k) (.item a) .bogus,
+          { inner := s', first := if stCompactClearsFirst then false else true, prev := setPrev })
+      else
+        match st.prev with
+        | some p => if stCompactKeeps eq p a then (ret (stCompactItemRet k) (.item a) .bogus, { st with inner := s', prev := setPrev })
+                    else (.skip, { st with inner := s' })
+        | none => (ret (stCompactItemRet k) (.item a) .bogus, { st with inner := s', prev := setPrev })
+    | _ => (.err .bogus, { st with inner := s' })
+
 def compact (eq : α → α → Bool) (m : SM σ α) : SM (CompactSt σ α) α :=
   ⟨fun st c =>
     match m.step st.inner c with
-    | (.item a, s') =>
-      let setPrev : Option α := if stCompactSetsPrev ≥ 2 then some a else st.prev
-      if st.first then
-        (.item a, { inner := s', first := if stCompactClearsFirst then false else true, prev := setPrev })
-      else
-        match st.prev with
-        | some p => if !eq p a then (.item a, { st with inner := s', prev := setPrev })
-                    else (.skip, { st with inner := s' })
-        | none => (.item a, { st with inner := s', prev := setPrev })
     | (.skip, s') => (.skip, { st with inner := s' })
-    | (.end_, s') => (.end_, { st with inner := s' })
-    | (.err e, s') => (.err e, { st with inner := s' }),
+    | (r, s') => compactOn eq st s' r,
    fun st => if stCompactCloseForwards then { st with inner := m.close st.inner } else st⟩
+
+/-- `stream.CompactFunc(s, eq)`: `first: true` -/
+def compactInit (s : σ) : CompactSt σ α := { inner := s, first := stCompactInitFirst, prev := none }
+
+/-- `stream.Compact(s)` = `CompactFunc(s, func(a, b T) bool { return a == b })` (regenerated body) -/
+def compactEq [BEq α] (m : SM σ α) : SM (CompactSt σ α) α :=
+  stCompactW (fun (m : SM σ α) (eq : α → α → Bool) => compact eq m) m
 
 /-- Wrappers that keep no state of their own carry the inner state in a one-field structure so
 that `close` forwarding is uniform. -/
 structure Wrap (σ : Type u) where
   inner : σ
 
+/-- `filterStream.Next` after its pull answered `r`: `err != nil` → `return zero, err`; then the callback:
+`err != nil` → `return zero, err`; `ok` → `return item, nil` -/
+def filterOn (keep : α → Except Err Bool) (s' : σ) (r : SStep α) : SStep α × Wrap σ :=
+  let k := r.code
+  if stFilterErrGuard k then (retE (stFilterErrRet k) r.held, ⟨s'⟩)
+  else match r with
+    | .item a =>
+      if stFilterCbGuard (cbCode (keep a)) then
+        (retE (stFilterCbRet (cbCode (keep a))) (match keep a with | .error e => e | .ok _ => .bogus), ⟨s'⟩)
+      else match keep a with
+        | .ok b => if stFilterKeeps b then (ret (stFilterItemRet 0) (.item a) .bogus, ⟨s'⟩) else (.skip, ⟨s'⟩)
+        | .error _ => (.err .bogus, ⟨s'⟩)
+    | _ => (.err .bogus, ⟨s'⟩)
+
 def filter (keep : α → Except Err Bool) (m : SM σ α) : SM (Wrap σ) α :=
   ⟨fun st c =>
     match m.step st.inner c with
-    | (.item a, s') =>
-      match keep a with
-      | .error e => (.err e, ⟨s'⟩)
-      | .ok true => (.item a, ⟨s'⟩)
-      | .ok false => (.skip, ⟨s'⟩)
     | (.skip, s') => (.skip, ⟨s'⟩)
-    | (.end_, s') => (.end_, ⟨s'⟩)
-    | (.err e, s') => (.err e, ⟨s'⟩),
+    | (r, s') => filterOn keep s' r,
    fun st => if stFilterCloseForwards then ⟨m.close st.inner⟩ else st⟩
+
+/-- `mapStream.Next` after its pull answered `r` -/
+def mapOn (f : α → Except Err β) (s' : σ) (r : SStep α) : SStep β × Wrap σ :=
+  let k := r.code
+  if stMapErrGuard k then (retE (stMapErrRet k) r.held, ⟨s'⟩)
+  else match r with
+    | .item a =>
+      if stMapCbGuard (cbCode (f a)) then
+        (retE (stMapCbRet (cbCode (f a))) (match f a with | .error e => e | .ok _ => .bogus), ⟨s'⟩)
+      else match f a with
+        | .ok b => (ret (stMapItemRet 0) (.item b) .bogus, ⟨s'⟩)
+        | .error _ => (.err .bogus, ⟨s'⟩)
+    | _ => (.err .bogus, ⟨s'⟩)
 
 def map (f : α → Except Err β) (m : SM σ α) : SM (Wrap σ) β :=
   ⟨fun st c =>
     match m.step st.inner c with
-    | (.item a, s') =>
-      match f a with
-      | .error e => (.err e, ⟨s'⟩)
-      | .ok b => (.item b, ⟨s'⟩)
     | (.skip, s') => (.skip, ⟨s'⟩)
-    | (.end_, s') => (.end_, ⟨s'⟩)
-    | (.err e, s') => (.err e, ⟨s'⟩),
+    | (r, s') => mapOn f s' r,
    fun st => if stMapCloseForwards then ⟨m.close st.inner⟩ else st⟩
 
 structure FirstSt (σ : Type u) where
   inner : σ
   x : Int
 
+/-- `firstStream.Next` after its pull answered `r`: `err != nil` → `return item, err`; else `x--; return item, nil` -/
+def firstOn (st : FirstSt σ) (s' : σ) (r : SStep α) : SStep α × FirstSt σ :=
+  let k := r.code
+  if stFirstErrGuard k then (retE (stFirstErrRet k) r.held, { st with inner := s' })
+  else match r with
+    | .item a => (ret (stFirstItemRet k) (.item a) .bogus, { inner := s', x := if stFirstDecrements then st.x - 1 else st.x })
+    | _ => (.err .bogus, { st with inner := s' })
+
 def first (m : SM σ α) : SM (FirstSt σ) α :=
   ⟨fun st c =>
-    if stFirstDone st.x then (.end_, st)
+    if stFirstDone st.x then (retE (stFirstDoneRet 0) .bogus, st)
     else
       match m.step st.inner c with
-      | (.item a, s') => (.item a, { inner := s', x := if stFirstDecrements then st.x - 1 else st.x })
-      | (r, s') => (r, { st with inner := s' }),
+      | (.skip, s') => (.skip, { st with inner := s' })
+      | (r, s') => firstOn st s' r,
    fun st => if stFirstCloseForwards then { st with inner := m.close st.inner } else st⟩
+
+/-- `stream.First(s, n)`: `x: n` -/
+def firstInit (s : σ) (n : Int) : FirstSt σ := { inner := s, x := stFirstInitX n }
 
 /-- `flattenStream{inner, curr}`; `finished` is ghost: the final states of the inner streams that ended. -/
 structure FlattenSt (σ : Type u) (τ : Type w) where
@@ -213,27 +339,45 @@ structure FlattenSt (σ : Type u) (τ : Type w) where
   curr : Option τ := none
   finished : List τ := []
 
+/-- `flattenStream.Next`, `curr == nil`: after the pull of the outer stream answered `r` -/
+def flattenOuterOn (st : FlattenSt σ τ) (s' : σ) (r : SStep τ) : SStep α × FlattenSt σ τ :=
+  let k := r.code
+  if stFlattenOuterErrGuard k then (retE (stFlattenOuterErrRet k) r.held, { st with outer := s' })
+  else match r with
+    | .item x => (.skip, { st with outer := s', curr := some x })
+    | _ => (.err .bogus, { st with outer := s' })
+
+/-- `flattenStream.Next` after the pull of the current inner stream answered `r`: `err == End` → close it,
+`curr = nil`, `continue`; `err != nil` → `return item, err` -/
+def flattenInnerOn (mi : SM τ α) (st : FlattenSt σ τ) (x' : τ) (r : SStep α) : SStep α × FlattenSt σ τ :=
+  let k := r.code
+  if stFlattenEndGuard k then
+    let x'' := if stFlattenClosesEnded then mi.close x' else x'
+    if stFlattenClearsCurr then (.skip, { st with curr := none, finished := st.finished ++ [x''] })
+    else (.skip, { st with curr := some x'' })
+  else if stFlattenErrGuard k then (retE (stFlattenErrRet k) r.held, { st with curr := some x' })
+  else match r with
+    | .item a => (ret (stFlattenItemRet k) (.item a) .bogus, { st with curr := some x' })
+    | _ => (.err .bogus, { st with curr := some x' })
+
+/-- `flattenStream.Close`: `if s.curr != nil { s.curr.Close() }; s.inner.Close()` — the condition under
+which the current inner stream is closed is the regenerated text -/
+def flattenCloseCurr : Bool := stFlattenCloseCurr && stFlattenCloseCond == "s.curr != nil"
+
 def flatten (mo : SM σ τ) (mi : SM τ α) : SM (FlattenSt σ τ) α :=
   ⟨fun st c =>
     match st.curr with
     | none =>
       match mo.step st.outer c with
-      | (.item x, s') => (.skip, { st with outer := s', curr := some x })
       | (.skip, s') => (.skip, { st with outer := s' })
-      | (.end_, s') => (.end_, { st with outer := s' })
-      | (.err e, s') => (.err e, { st with outer := s' })
+      | (r, s') => flattenOuterOn st s' r
     | some x =>
       match mi.step x c with
-      | (.item a, x') => (.item a, { st with curr := some x' })
       | (.skip, x') => (.skip, { st with curr := some x' })
-      | (.err e, x') => (.err e, { st with curr := some x' })
-      | (.end_, x') =>
-        let x'' := if stFlattenClosesEnded then mi.close x' else x'
-        if stFlattenClearsCurr then (.skip, { st with curr := none, finished := st.finished ++ [x''] })
-        else (.skip, { st with curr := some x'' }),
+      | (r, x') => flattenInnerOn mi st x' r,
    fun st =>
     let st := match st.curr with
-      | some x => if stFlattenCloseCurr then { st with curr := some (mi.close x) } else st
+      | some x => if flattenCloseCurr then { st with curr := some (mi.close x) } else st
       | none => st
     if stFlattenCloseForwards then { st with outer := mo.close st.outer } else st⟩
 
@@ -241,16 +385,25 @@ structure FlattenSlicesSt (σ : Type u) (α : Type v) where
   inner : σ
   buffer : List α := []
 
+/-- `flattenSlicesStream.Next`, buffer empty, after its pull answered `r`: `err != nil` → `return zero, err` -/
+def flattenSlicesOn (st : FlattenSlicesSt σ α) (s' : σ) (r : SStep (List α)) : SStep α × FlattenSlicesSt σ α :=
+  let k := r.code
+  if stFlattenSlicesErrGuard k then (retE (stFlattenSlicesErrRet k) r.held, { st with inner := s' })
+  else match r with
+    | .item xs => (.skip, { inner := s', buffer := xs })
+    | _ => (.err .bogus, { st with inner := s' })
+
 def flattenSlices (m : SM σ (List α)) : SM (FlattenSlicesSt σ α) α :=
   ⟨fun st c =>
-    match st.buffer with
-    | a :: r => (.item a, { st with buffer := r })
-    | [] =>
+    -- `if len(s.buffer) > 0 { item := s.buffer[0]; s.buffer = s.buffer[1:]; return item, nil }`
+    if stFlattenSlicesHas (st.buffer.length : Int) then
+      match st.buffer[stFlattenSlicesHead.toNat]? with
+      | some a => (ret (stFlattenSlicesItemRet 0) (.item a) .bogus, { st with buffer := st.buffer.drop stFlattenSlicesRest.toNat })
+      | none => (.err .bogus, st)
+    else
       match m.step st.inner c with
-      | (.item xs, s') => (.skip, { inner := s', buffer := xs })
       | (.skip, s') => (.skip, { st with inner := s' })
-      | (.end_, s') => (.end_, { st with inner := s' })
-      | (.err e, s') => (.err e, { st with inner := s' }),
+      | (r, s') => flattenSlicesOn st s' r,
    fun st => if stFlattenSlicesCloseForwards then { st with inner := m.close st.inner } else st⟩
 
 /-- `joinStream{remaining}`; `finished` is ghost (the streams that ended and were dropped). -/
@@ -258,42 +411,68 @@ structure JoinSt (σ : Type u) where
   remaining : List σ
   finished : List σ := []
 
+/-- `joinStream.Next` after the pull of `remaining[0]` answered `r`: `err == End` → close it, drop it,
+`continue`; `err != nil` → `return zero, err` -/
+def joinOn (m : SM σ α) (st : JoinSt σ) (s' : σ) (rest : List σ) (r : SStep α) : SStep α × JoinSt σ :=
+  let k := r.code
+  if stJoinEndGuard k then
+    let s'' := if stJoinClosesEnded then m.close s' else s'
+    if stJoinAdvances then (.skip, { remaining := rest, finished := st.finished ++ [s''] })
+    else (.skip, { st with remaining := s'' :: rest })
+  else if stJoinErrGuard k then (retE (stJoinErrRet k) r.held, { st with remaining := s' :: rest })
+  else match r with
+    | .item a => (ret (stJoinItemRet k) (.item a) .bogus, { st with remaining := s' :: rest })
+    | _ => (.err .bogus, { st with remaining := s' :: rest })
+
+/-- `joinStream.Close`: `for i := range s.remaining { s.remaining[i].Close() }` — which of the remaining
+streams are closed is decided by the regenerated range operand and loop body -/
+def joinCloseAll : Bool :=
+  stJoinCloseForwards && stJoinCloseRange == "s.remaining" && stJoinCloseStmt == "{ s.remaining[i].Close() }"
+
 def join (m : SM σ α) : SM (JoinSt σ) α :=
   ⟨fun st c =>
-    match st.remaining with
-    | [] => (.end_, st)
-    | s :: r =>
-      match m.step s c with
-      | (.item a, s') => (.item a, { st with remaining := s' :: r })
-      | (.skip, s') => (.skip, { st with remaining := s' :: r })
-      | (.err e, s') => (.err e, { st with remaining := s' :: r })
-      | (.end_, s') =>
-        let s'' := if stJoinClosesEnded then m.close s' else s'
-        if stJoinAdvances then (.skip, { remaining := r, finished := st.finished ++ [s''] })
-        else (.skip, { st with remaining := s'' :: r }),
-   fun st => if stJoinCloseForwards then { st with remaining := st.remaining.map m.close } else st⟩
+    -- `for len(s.remaining) > 0 { … }; return zero, End`
+    if stJoinLoops (st.remaining.length : Int) then
+      match st.remaining with
+      | [] => (retE (stJoinDoneRet 0) .bogus, st)
+      | s :: r =>
+        match m.step s c with
+        | (.skip, s') => (.skip, { st with remaining := s' :: r })
+        | (x, s') => joinOn m st s' r x
+    else (retE (stJoinDoneRet 0) .bogus, st),
+   fun st => if joinCloseAll then { st with remaining := st.remaining.map m.close } else st⟩
 
 structure WhileSt (σ : Type u) (α : Type v) where
   inner : σ
   held : Option α := none
   done : Bool := false
 
-/-- the part of `whileStream.Next` after an item is held -/
+/-- the part of `whileStream.Next` after an item is held: the callback; `err != nil` → `return zero, err`;
+`!ok` → `done = true; return zero, End`; else `has = false; return item, nil` -/
 def whileEval (f : α → Except Err Bool) (st : WhileSt σ α) (a : α) : SStep α × WhileSt σ α :=
-  match f a with
-  | .error e => (.err e, st)
-  | .ok false => (.end_, { st with done := if stWhileSetsDone then true else st.done })
-  | .ok true => (.item a, { st with held := if stWhileClearsHas then none else st.held })
+  if stWhileCbGuard (cbCode (f a)) then
+    (retE (stWhileCbRet (cbCode (f a))) (match f a with | .error e => e | .ok _ => .bogus), st)
+  else match f a with
+    | .ok b =>
+      if stWhileStops b then (retE (stWhileStopRet 0) .bogus, { st with done := if stWhileSetsDone then true else st.done })
+      else (ret (stWhileItemRet 0) (.item a) .bogus, { st with held := if stWhileClearsHas then none else st.held })
+    | .error _ => (.err .bogus, st)
+
+/-- `whileStream.Next`, nothing held, after its pull answered `r`: `err != nil` → `return zero, err` -/
+def whileOn (f : α → Except Err Bool) (st : WhileSt σ α) (s' : σ) (r : SStep α) : SStep α × WhileSt σ α :=
+  let k := r.code
+  if stWhileErrGuard k then (retE (stWhileErrRet k) r.held, { st with inner := s' })
+  else match r with
+    | .item a => whileEval f { st with inner := s', held := if stWhileSetsHas then some a else none } a
+    | _ => (.err .bogus, { st with inner := s' })
 
 def while_ (f : α → Except Err Bool) (m : SM σ α) : SM (WhileSt σ α) α :=
   ⟨fun st c =>
-    if stWhileDone st.done then (.end_, st)
+    if stWhileDone st.done then (retE (stWhileDoneRet 0) .bogus, st)
     else if stWhilePulls st.held.isSome then
       match m.step st.inner c with
-      | (.item a, s') => whileEval f { st with inner := s', held := if stWhileSetsHas then some a else none } a
       | (.skip, s') => (.skip, { st with inner := s' })
-      | (.end_, s') => (.end_, { st with inner := s' })
-      | (.err e, s') => (.err e, { st with inner := s' })
+      | (r, s') => whileOn f st s' r
     else
       match st.held with
       | some a => whileEval f st a
@@ -310,19 +489,31 @@ structure RunsSt (σ : Type u) (α : Type v) where
   gen : Nat := 0
   live : Option (Nat × α × Bool) := none
 
+/-- `runsInnerStream.Next` after `parent.inner.Peek(ctx)` answered `r`: `err == End` → `return zero, End`;
+`err != nil` → `return zero, err`; `!same(prev, item)` → `return zero, End`; else `prev = item` and the
+item is consumed (`return parent.inner.Next(ctx)`) -/
+def runsInnerOn (same : α → α → Bool) (m : SM σ α) (st : RunsSt σ α) (g' : Nat) (prev : α) (det : Bool)
+    (pk' : PeekSt σ α) (c : Bool) (r : SStep α) : SStep α × RunsSt σ α :=
+  let k := r.code
+  if stRunsInnerEndGuard k then (retE (stRunsInnerEndRet k) r.held, { st with pk := pk' })
+  else if stRunsInnerErrGuard k then (retE (stRunsInnerErrRet k) r.held, { st with pk := pk' })
+  else match r with
+    | .item a =>
+      if stRunsInnerStops same prev a then (retE (stRunsInnerOtherRet k) .bogus, { st with pk := pk' })
+      else
+        let (r, pk'') := peekNext m pk' c
+        (r, { st with pk := pk'', live := some (g', if stRunsInnerTracksPrev then a else prev, det) })
+    | _ => (.err .bogus, { st with pk := pk' })
+
 def runsInner (same : α → α → Bool) (m : SM σ α) (g : Nat) (st : RunsSt σ α) (c : Bool) :
     SStep α × RunsSt σ α :=
   match st.live with
   | some (g', prev, det) =>
-    if g' ≠ g || det then (.end_, st)
+    if g' ≠ g || det then (retE (stRunsInnerDetachedRet 0) .bogus, st)
     else
       match peekPeek m st.pk c with
-      | (.item a, pk') =>
-        if !same prev a then (.end_, { st with pk := pk' })
-        else
-          let (r, pk'') := peekNext m pk' c
-          (r, { st with pk := pk'', live := some (g', if stRunsInnerTracksPrev then a else prev, det) })
-      | (r, pk') => (r, { st with pk := pk' })
+      | (.skip, pk') => (.skip, { st with pk := pk' })
+      | (r, pk') => runsInnerOn same m st g' prev det pk' c r
   | none => (.end_, st)
 
 def runsInnerClose (g : Nat) (st : RunsSt σ α) : RunsSt σ α :=
@@ -331,21 +522,35 @@ def runsInnerClose (g : Nat) (st : RunsSt σ α) : RunsSt σ α :=
     if g' = g then { st with live := some (g', prev, if stRunsInnerCloseDetaches then true else det) } else st
   | none => st
 
+/-- `runsStream.Next`, draining the current inner stream, after its `Next` answered `r`:
+`err == End` → `break` (then `curr.Close(); curr = nil`); `err != nil` → `return nil, err` -/
+def runsDrainOn (g : Nat) (st' : RunsSt σ α) (r : SStep α) : SStep Nat × RunsSt σ α :=
+  let k := r.code
+  if stRunsDrainEndGuard k then
+    let st' := if stRunsClosesCurr then runsInnerClose g st' else st'
+    (.skip, { st' with live := if stRunsClearsCurr then none else st'.live })
+  else if stRunsDrainErrGuard k then (retE (stRunsDrainErrRet k) r.held, st')
+  else (.skip, st')
+
+/-- `runsStream.Next`, no current inner stream, after `inner.Peek(ctx)` answered `r`: `err != nil` →
+`return nil, err` (the end included) -/
+def runsPeekOn (st : RunsSt σ α) (pk' : PeekSt σ α) (r : SStep α) : SStep Nat × RunsSt σ α :=
+  let k := r.code
+  if stRunsPeekErrGuard k then (retE (stRunsPeekErrRet k) r.held, { st with pk := pk' })
+  else match r with
+    | .item a => (ret (stRunsItemRet k) (.item (st.gen + 1)) .bogus, { pk := pk', gen := st.gen + 1, live := some (st.gen + 1, a, false) })
+    | _ => (.err .bogus, { st with pk := pk' })
+
 def runsOuter (same : α → α → Bool) (m : SM σ α) (st : RunsSt σ α) (c : Bool) : SStep Nat × RunsSt σ α :=
   match st.live with
   | some (g, _, _) =>
     match runsInner same m g st c with
-    | (.end_, st') =>
-      let st' := if stRunsClosesCurr then runsInnerClose g st' else st'
-      (.skip, { st' with live := if stRunsClearsCurr then none else st'.live })
-    | (.err e, st') => (.err e, st')
-    | (_, st') => (.skip, st')
+    | (.skip, st') => (.skip, st')
+    | (r, st') => runsDrainOn g st' r
   | none =>
     match peekPeek m st.pk c with
-    | (.item a, pk') => (.item (st.gen + 1), { pk := pk', gen := st.gen + 1, live := some (st.gen + 1, a, false) })
     | (.skip, pk') => (.skip, { st with pk := pk' })
-    | (.end_, pk') => (.end_, { st with pk := pk' })
-    | (.err e, pk') => (.err e, { st with pk := pk' })
+    | (r, pk') => runsPeekOn st pk' r
 
 def runsClose (m : SM σ α) (st : RunsSt σ α) : RunsSt σ α :=
   if stRunsCloseForwards then { st with pk := peekClose m st.pk } else st
@@ -396,29 +601,62 @@ inductive ROut (ρ : Type v) where
   | fuel
   deriving Repr, DecidableEq
 
-def reduceLoop {γ : Type x} (m : SM σ α) (f : γ → α → Except Err γ) (c : Bool) : Nat → γ → σ → ROut γ × σ
+/-- `return v, E` of a reducer: `ok` is the result when the error operand is `nil`; a reducer never
+returns `End`. -/
+def rret {ρ : Type x} (k : Int) (ok : ROut ρ) (held : Err) : ROut ρ :=
+  if k = 0 then ok
+  else if k = 2 then .error held
+  else if k = 3 then .error .empty
+  else if k = 4 then .error .moreThanOne
+  else .error .bogus
+
+/-- the regenerated error guards / returned error operands of a reducer's read loop
+(`if err == End {…} else if err != nil {…}`, and the guard after the callback) -/
+structure RGuards where
+  endG : Int → Bool
+  endR : Int → Int
+  errG : Int → Bool
+  errR : Int → Int
+  cbG : Int → Bool
+  cbR : Int → Int
+
+def reduceG : RGuards := ⟨stReduceEndGuard, stReduceEndRet, stReduceErrGuard, stReduceErrRet, stReduceCbGuard, stReduceCbRet⟩
+/-- `Collect`'s callback (`append`) cannot fail -/
+def collectG : RGuards := ⟨stCollectEndGuard, stCollectEndRet, stCollectErrGuard, stCollectErrRet, fun _ => false, id⟩
+/-- `xrand.rSampleStream`: `err == stream.End` → `break Outer`, then `return out, nil` -/
+def sampleG : RGuards := ⟨sampleEndGuard, sampleRet, sampleErrGuard, sampleErrRet, fun _ => false, id⟩
+
+/-- the loop `for { item, err := s.Next(ctx); if err == End { return acc, nil } else if err != nil { return …, err };
+acc, err = f(acc, item); if err != nil { return acc, err } }` -/
+def reduceLoop {γ : Type x} (g : RGuards) (m : SM σ α) (f : γ → α → Except Err γ) (c : Bool) : Nat → γ → σ → ROut γ × σ
   | 0, _, s => (.fuel, s)
   | fuel + 1, acc, s =>
     match m.step s c with
-    | (.item a, s') =>
-      match f acc a with
-      | .error e => (.error e, s')
-      | .ok acc' => reduceLoop m f c fuel acc' s'
-    | (.skip, s') => reduceLoop m f c fuel acc s'
-    | (.end_, s') => (.ok acc, s')
-    | (.err e, s') => (.error e, s')
+    | (.skip, s') => reduceLoop g m f c fuel acc s'
+    | (r, s') =>
+      let k := r.code
+      if g.endG k then (rret (g.endR k) (.ok acc) r.held, s')
+      else if g.errG k then (rret (g.errR k) (.error .bogus) r.held, s')
+      else match r with
+        | .item a =>
+          if g.cbG (cbCode (f acc a)) then
+            (rret (g.cbR (cbCode (f acc a))) (.error .bogus) (match f acc a with | .error e => e | .ok _ => .bogus), s')
+          else match f acc a with
+            | .ok acc' => reduceLoop g m f c fuel acc' s'
+            | .error _ => (.error .bogus, s')
+        | _ => (.error .bogus, s')
 
-/-- a deferred `s.Close()` runs on every path, if the `defer` statement is there -/
+/-- a deferred `s.Close()` runs on every path, if the `defer` statement is there (as the first statement) -/
 def deferClose (present : Bool) (m : SM σ α) (s : σ) : σ := if present then m.close s else s
 
 /-- `stream.Reduce`. -/
 def reduce {γ : Type x} (m : SM σ α) (f : γ → α → Except Err γ) (c : Bool) (fuel : Nat) (init : γ) (s : σ) : ROut γ × σ :=
-  let (r, s') := reduceLoop m f c fuel init s
+  let (r, s') := reduceLoop reduceG m f c fuel init s
   (r, deferClose stReduceDefersClose m s')
 
 /-- `stream.Collect`. -/
 def collect (m : SM σ α) (c : Bool) (fuel : Nat) (s : σ) : ROut (List α) × σ :=
-  let (r, s') := reduceLoop m (fun (acc : List α) a => .ok (acc ++ [a])) c fuel [] s
+  let (r, s') := reduceLoop collectG m (fun (acc : List α) a => .ok (acc ++ [a])) c fuel [] s
   (r, deferClose stCollectDefersClose m s')
 
 def lastStore (buf : List (Option α)) (i n : Int) (a : α) : Option (List (Option α)) :=
@@ -431,30 +669,34 @@ def lastLoop (m : SM σ α) (n : Int) (c : Bool) :
   | 0, _, _, s => (.fuel, s)
   | fuel + 1, buf, i, s =>
     match m.step s c with
-    | (.item a, s') =>
-      match lastStore buf i n a with
-      | none => (.panic, s')
-      | some buf' => lastLoop m n c fuel buf' (if stLastCounts then i + 1 else i) s'
     | (.skip, s') => lastLoop m n c fuel buf i s'
-    | (.end_, s') => (.ok (buf, i), s')
-    | (.err e, s') => (.error e, s')
+    | (r, s') =>
+      let k := r.code
+      if stLastEndGuard k then (.ok (buf, i), s')                 -- `break`
+      else if stLastErrGuard k then (rret (stLastErrRet k) (.error .bogus) r.held, s')
+      else match r with
+        | .item a =>
+          match lastStore buf i n a with
+          | none => (.panic, s')
+          | some buf' => lastLoop m n c fuel buf' (if stLastCounts then i + 1 else i) s'
+        | _ => (.error .bogus, s')
 
 def lastFinish (buf : List (Option α)) (i n : Int) : ROut (List (Option α)) :=
-  if stLastShort i n then .ok (buf.take i.toNat)
+  if stLastShort i n then rret (stLastShortRet 0) (.ok (buf.take (stLastTake i n 0).toNat)) .bogus
   else if stLastRotGuard n then
     if n = 0 then .panic
     else
       let idx := stLastIdx i n
       let out : List (Option α) := List.replicate n.toNat none
-      let a := buf.drop idx.toNat
+      let a := buf.drop (stLastFrom i n idx).toNat
       let out := a ++ out.drop a.length
       let split := stLastSplit n idx
       if split < 0 || split > n then .panic
       else
         let k := split.toNat
-        let b := buf.take idx.toNat
-        .ok ((out.take k ++ b ++ out.drop (k + b.length)).take n.toNat)
-  else .ok (List.replicate n.toNat none)
+        let b := buf.take (stLastUpto i n idx).toNat
+        rret (stLastRet 0) (.ok ((out.take k ++ b ++ out.drop (k + b.length)).take n.toNat)) .bogus
+  else rret (stLastRet 0) (.ok (List.replicate n.toNat none)) .bogus
 
 /-- `stream.Last(ctx, s, n)`, `n ≥ 0`. The deferred `Close` also runs when the body panics. -/
 def last (m : SM σ α) (n : Int) (c : Bool) (fuel : Nat) (s : σ) : ROut (List (Option α)) × σ :=
@@ -468,27 +710,49 @@ def last (m : SM σ α) (n : Int) (c : Bool) (fuel : Nat) (s : σ) : ROut (List 
       | .fuel => .fuel
     (r', deferClose stLastDefersClose m s')
 
+/-- `stream.One`, after its first `Next` answered `r`: `err == End` → `return zero, ErrEmpty`;
+`err != nil` → `return zero, err` -/
+def oneFirst (r : SStep α) : Option (ROut α) :=
+  let k := r.code
+  if stOneEmptyGuard k then some (rret (stOneEmptyRet k) (.error .bogus) r.held)
+  else if stOneErr1Guard k then some (rret (stOneErr1Ret k) (.error .bogus) r.held)
+  else none
+
+/-- … and after its second `Next` answered `r`: `err == End` → `return x, nil`; `err != nil` → `return zero, err`;
+else `return zero, ErrMoreThanOne` -/
+def oneSecond (x : α) (r : SStep α) : ROut α :=
+  let k := r.code
+  if stOneOkGuard k then rret (stOneOkRet k) (.ok x) r.held
+  else if stOneErr2Guard k then rret (stOneErr2Ret k) (.error .bogus) r.held
+  else rret (stOneMoreRet k) (.error .bogus) r.held
+
 /-- `stream.One`. -/
 def one (m : SM σ α) (c : Bool) (fuel : Nat) (s : σ) : ROut α × σ :=
   let (r, s') : ROut α × σ :=
     match drive m c fuel s with
     | (none, s') => (.fuel, s')
-    | (some (.end_), s') => (.error .empty, s')
-    | (some (.err e), s') => (.error e, s')
     | (some .skip, s') => (.fuel, s')
-    | (some (.item x), s') =>
-      match drive m c fuel s' with
-      | (none, s'') => (.fuel, s'')
-      | (some (.end_), s'') => (.ok x, s'')
-      | (some (.err e), s'') => (.error e, s'')
-      | (some .skip, s'') => (.fuel, s'')
-      | (some (.item _), s'') => (.error .moreThanOne, s'')
+    | (some r1, s') =>
+      match oneFirst r1 with
+      | some out => (out, s')
+      | none =>
+        match r1 with
+        | .item x =>
+          match drive m c fuel s' with
+          | (none, s'') => (.fuel, s'')
+          | (some .skip, s'') => (.fuel, s'')
+          | (some r2, s'') => (oneSecond x r2, s'')
+        | _ => (.error .bogus, s')
   (r, deferClose stOneDefersClose m s')
 
-/-- `xrand.rSampleStream` as far as C09 is concerned: reads the stream to its end (or to the first
-error), then the deferred `Close` runs. The answer is the number of items read. -/
-def sampleCount (m : SM σ α) (c : Bool) (fuel : Nat) (s : σ) : ROut Nat × σ :=
-  let (r, s') := reduceLoop m (fun (acc : Nat) _ => .ok (acc + 1)) c fuel 0 s
+/-- `xrand.SampleStream` = `rSampleStream(ctx, defaultRand{}, s, k)` (regenerated body); `rSampleStream` as
+far as C08 / C09 are concerned: reads the stream to its end (or to the first error), then the deferred
+`Close` runs. The answer is the number of items read. -/
+def rSampleCount (m : SM σ α) (c : Bool) (fuel : Nat) (s : σ) : ROut Nat × σ :=
+  let (r, s') := reduceLoop sampleG m (fun (acc : Nat) _ => .ok (acc + 1)) c fuel 0 s
   (r, deferClose sampleStreamDefersClose m s')
+
+def sampleCount (m : SM σ α) (c : Bool) (fuel : Nat) (s : σ) : ROut Nat × σ :=
+  sampleStreamW (fun (c : Bool) (_ : Unit) (s : σ) (fuel : Nat) => rSampleCount m c fuel s) () c s fuel
 
 end Juniper.Model.Stream
